@@ -37,7 +37,7 @@ def _walk(e):
             yield from _walk(v)
 
 
-def finding_key(case, header, r):
+def finding_key(case, header, r, sibling=None):
     """Narrow keys of genuine simplifier defects listed in known_findings.json (anything else raises)."""
     if r.get("type_changed") or r.get("after_plan_error") or not r.get("engine_diff_rows"):
         return None
@@ -59,7 +59,13 @@ def finding_key(case, header, r):
     rows = exprcases.table_rows(header, case["tbl"])
     # (1) guarantee MaybeNull{[v,v]}: the column is replaced by the literal v although it may be NULL
     single = [g["col"] for g in r.get("guar", []) if g["nk"] == "maybe" and g["lo"] == g["hi"]]
-    if single and all(any(rows[d[0] - 1][c - 1]["k"] == "n" for c in single) for d in diffs):
+    # ... unless the same case WITHOUT guarantees (variant `nullable`) is rewritten to the same expression and differs on
+    # the same rows in the same way: then the guarantee is not the cause and the later keys decide
+    same_without_guarantee = False
+    if sibling is not None and sibling.get("after") == r.get("after") and sibling.get("engine_diff_rows"):
+        sib = {d[0]: (d[1], d[2]) for d in sibling["engine_diff_rows"]}
+        same_without_guarantee = all(sib.get(d[0]) == (d[1], d[2]) for d in diffs)
+    if single and not same_without_guarantee and all(any(rows[d[0] - 1][c - 1]["k"] == "n" for c in single) for d in diffs):
         return "guarantee-maybenull-single-value-replaced-by-literal"
     # (2) IN-list set algebra (x [NOT] IN l1 AND/OR x [NOT] IN l2 -> intersection / union / difference, empty -> literal)
     #     forgets that the needle or a list element may be NULL: the only differences are NULL vs TRUE/FALSE
@@ -136,6 +142,7 @@ def run(ctx):
     tool_errors = [r for r in res if "tool_error" in r]
     if tool_errors:
         raise ToolError(f"AST conversion failed: {tool_errors[0]}")
+    nullable_of = {(r["p"], r["id"]): r for r in res if r.get("variant") == "nullable"}
     for r in res:
         c = by[(r["p"], r["id"])]
         stats["variant:" + r["variant"].rstrip("0123456789")] += 1
@@ -163,7 +170,8 @@ def run(ctx):
             spec_only.append({"expr": exprcases.show(c["e"], header), "after": r.get("after"), "variant": r["variant"], "witness_rows": v["witnesses"][:5]})
         if msgs:
             report_violation(ctx, {"case": c, "header": header, "expr": exprcases.show(c["e"], header), "event": r,
-                                   "tlc_verdict": v, "oracle": "; ".join(msgs)}, key=finding_key(c, header, r))
+                                   "tlc_verdict": v, "oracle": "; ".join(msgs)},
+                             key=finding_key(c, header, r, nullable_of.get((r["p"], r["id"])) if r["variant"].startswith("guarantees") else None))
         if r.get("changed"):
             key = exprcases.show(c["e"], header) + " => " + (r.get("after") or "")
             changed_distinct.add(key)
